@@ -1,8 +1,9 @@
 """C01: rules x backend configurations. The implementation's post-processed condition tree and its
 per-leaf renderings go into the Coq model (bit 1: assembled query string == implementation's);
-the implementation's query string is lexed and its atoms decoded here, then parsed by the verified
-target parser inside Coq and compared, for all truth assignments, with the reference meaning of the
-rule built here from the detection items and the generated condition expression (bit 2)."""
+the implementation's query string is lexed, its atoms are decoded and identified with the reference
+predicates, and the result is parsed - all inside Coq - and compared, for all truth assignments, with
+the reference meaning of the rule built here from the detection items and the generated condition
+expression (bit 2)."""
 import itertools, json, random, re
 from vlib.core import Property, Suite, cstr, clist, cbool, copt, cnat
 
@@ -228,7 +229,8 @@ def expr_ref(e, dets, k):
 
 
 # --------------------------------------------------------------------------------------------------
-# reader of the verification backend's atoms
+# reader of a quoted literal (suite strop only; whole queries are read inside Coq: Spec/Lex.v, Spec/Atom.v,
+# Spec/Query.v)
 def dec_str(t):
     if len(t) < 2 or t[0] != '"' or t[-1] != '"':
         return None
@@ -243,143 +245,6 @@ def dec_str(t):
             return None
         out.append(("M",) if c == "*" else ("S",) if c == "?" else ("L", c)); i += 1
     return tuple(out)
-
-
-def unesc_re(t):
-    return re.sub(r"\\([/«»\\])", r"\1", t)
-
-
-def dec_list(t):
-    """elements of an in-list: quoted strings or numbers separated by ', '"""
-    out, i = [], 0
-    while i < len(t):
-        if t[i] == '"':
-            j = i + 1
-            while j < len(t) and t[j] != '"':
-                j += 2 if t[j] == "\\" else 1
-            out.append(t[i:j + 1]); i = j + 1
-        else:
-            j = t.find(", ", i)
-            j = len(t) if j < 0 else j
-            out.append(t[i:j]); i = j
-        if t[i:i + 2] == ", ":
-            i += 2
-        elif i < len(t):
-            return None
-    return out
-
-
-F = r"([A-Za-z0-9_]+)"
-def decode_atom(text):
-    """-> ('atom', triple, negated) | ('in', disj, field, [triples]) | None"""
-    m = re.fullmatch(r"«(.*)»(.*)", text, flags=re.S)
-    if not m:
-        b = re.fullmatch(F + r"=(.+)", text)
-        if b:
-            return ("atom", ("eq", b.group(1), b.group(2)), False)
-        return None
-    body, suffix = m.group(1), m.group(2)
-    if suffix:
-        ts = re.fullmatch(F + r"\.([a-z]+)", body)
-        if not ts:
-            return None
-        if suffix.startswith("=") and not suffix.startswith("=="):
-            return ("atom", ("tspart", ts.group(1), ts.group(2), suffix[1:]), False)
-        c = re.fullmatch(r"(<=|>=|<>|<|>)(.+)", suffix)
-        if c:
-            op = {"<": "LT", "<=": "LTE", ">": "GT", ">=": "GTE", "<>": "NEQ"}[c.group(1)]
-            return ("atom", ("cmp_ts", ts.group(1), op, ts.group(2), c.group(2)), False)
-        return None
-    for kw, neg, mk in [("startswith", False, lambda p: p + (("M",),)), ("!startswith", True, lambda p: p + (("M",),)),
-                        ("endswith", False, lambda p: (("M",),) + p), ("!endswith", True, lambda p: (("M",),) + p),
-                        ("contains", False, lambda p: (("M",),) + p + (("M",),)), ("!contains", True, lambda p: (("M",),) + p + (("M",),)),
-                        ("match", False, lambda p: p)]:
-        mm = re.fullmatch(F + " " + re.escape(kw) + r" (\".*\")", body, flags=re.S)
-        if mm:
-            p = dec_str(mm.group(2))
-            return None if p is None else ("atom", ("match", mm.group(1), norm(mk(p))), neg)
-    for kw, neg, mk in [("cstartswith", False, lambda p: p + (("M",),)), ("!cstartswith", True, lambda p: p + (("M",),)),
-                        ("cendswith", False, lambda p: (("M",),) + p), ("!cendswith", True, lambda p: (("M",),) + p),
-                        ("ccontains", False, lambda p: (("M",),) + p + (("M",),)), ("!ccontains", True, lambda p: (("M",),) + p + (("M",),)),
-                        ("cmatch", False, lambda p: p)]:
-        mm = re.fullmatch(F + " " + re.escape(kw) + r" (\".*\")", body, flags=re.S)
-        if mm:
-            p = dec_str(mm.group(2))
-            return None if p is None else ("atom", ("cmatch", mm.group(1), norm(mk(p))), neg)
-    mm = re.fullmatch(F + r"(=~|!~)/(.*)/([ims]*)", body, flags=re.S)
-    if mm:
-        return ("atom", ("re", mm.group(1), unesc_re(mm.group(3)), tuple(sorted(mm.group(4)))), mm.group(2) == "!~")
-    mm = re.fullmatch(r"(!?)cidr\(" + F + r",(.*)\)", body)
-    if mm:
-        return ("atom", ("cidr", mm.group(2), mm.group(3)), mm.group(1) == "!")
-    mm = re.fullmatch(F + r" is null", body)
-    if mm:
-        return ("atom", ("null", mm.group(1)), False)
-    mm = re.fullmatch(r"(not)?exists\(" + F + r"\)", body)
-    if mm:
-        return ("atom", ("exists", mm.group(2)), mm.group(1) == "not")
-    mm = re.fullmatch(F + r"(==| fstartswith | fendswith | fcontains )" + F, body)
-    if mm:
-        kind = mm.group(2).strip()
-        sw, ew = {"==": (False, False), "fstartswith": (True, False), "fendswith": (False, True), "fcontains": (True, True)}[kind]
-        return ("atom", ("fieldref", mm.group(1), mm.group(3), sw, ew), False)
-    mm = re.fullmatch(F + r" (in|contains-all) \((.*)\)", body, flags=re.S)
-    if mm:
-        els = dec_list(mm.group(3))
-        if els is None:
-            return None
-        tr = []
-        for e in els:
-            if e.startswith('"'):
-                p = dec_str(e)
-                if p is None:
-                    return None
-                tr.append(("match", mm.group(1), norm(p)))
-            else:
-                tr.append(("eq", mm.group(1), e))
-        return ("in", mm.group(2) == "in", mm.group(1), tr)
-    mm = re.fullmatch(F + r"(<=|>=|<>|<|>)([-0-9.e+]+)", body)
-    if mm:
-        op = {"<": "LT", "<=": "LTE", ">": "GT", ">=": "GTE", "<>": "NEQ"}[mm.group(2)]
-        return ("atom", ("cmp", mm.group(1), op, mm.group(3)), False)
-    mm = re.fullmatch(F + r"(=|!=)(\".*\")", body, flags=re.S)
-    if mm:
-        p = dec_str(mm.group(3))
-        return None if p is None else ("atom", ("match", mm.group(1), norm(p)), mm.group(2) == "!=")
-    mm = re.fullmatch(r"_ num ([-0-9.e+]+)", body)
-    if mm:
-        return ("atom", ("eq", "_", mm.group(1)), False)
-    return None
-
-
-def lex(q):
-    """query text -> list of ('op', x) | ('L',) | ('R',) | ('atom', text); None on lexical error"""
-    out, i = [], 0
-    while i < len(q):
-        c = q[i]
-        if c == " ":
-            i += 1
-        elif c == "(":
-            out.append(("L",)); i += 1
-        elif c == ")":
-            out.append(("R",)); i += 1
-        elif c == "«":
-            j = i + 1
-            while j < len(q) and q[j] != "»":
-                j += 2 if q[j] == "\\" else 1
-            if j >= len(q):
-                return None
-            j += 1
-            while j < len(q) and q[j] not in " ()":
-                j += 1
-            out.append(("atom", q[i:j])); i = j
-        else:
-            j = i
-            while j < len(q) and q[j] not in " ()":
-                j += 1
-            w = q[i:j]
-            out.append(("op", w) if w in ("and", "or", "not") else ("atom", w)); i = j
-    return out
 
 
 # --------------------------------------------------------------------------------------------------
@@ -436,46 +301,58 @@ def c_ref(e, ids):
     return "(CBin %s %s)" % ("BAnd" if e[0] == "and" else "BOr", clist(c_ref(a, ids) for a in e[1]))
 
 
-def c_toks(q, ids):
-    ls = lex(q)
-    if ls is None:
-        return None
+CMPOPS = {"LT": "CLt", "LTE": "CLte", "GT": "CGt", "GTE": "CGte", "NEQ": "CNeq"}
+
+
+def c_items(parts):
     out = []
-    fids = {}
-    for t in ls:
-        if t[0] == "L":
-            out.append("TL")
-        elif t[0] == "R":
-            out.append("TR")
-        elif t[0] == "op":
-            out.append("(TOp %s)" % {"and": "OAnd", "or": "OOr", "not": "ONot"}[t[1]])
+    for p in parts:
+        if p[0] == "L":
+            out.append("Lit %d" % ord(p[1]))
+        elif p[0] == "M":
+            out.append("Multi")
+        elif p[0] == "S":
+            out.append("Single")
         else:
-            d = decode_atom(t[1])
-            if d is None:
-                return None
-            if d[0] == "atom":
-                out.append("(TAtom %d%%nat %s)" % (ids.setdefault(d[1], len(ids)), cbool(d[2])))
-            else:
-                out.append("(TIn %s %d%%nat %s)" % (cbool(d[1]), fids.setdefault(d[2], len(fids)),
-                                               clist(str(ids.setdefault(x, len(ids))) + "%nat" for x in d[3])))
+            out.append("Ph %s" % cstr(p[1]))
     return clist(out)
 
 
-def c_pylex(q):
-    ls = lex(q)
-    if ls is None:
-        return "None"
-    out = []
-    for t in ls:
-        if t[0] == "L":
-            out.append("XL")
-        elif t[0] == "R":
-            out.append("XR")
-        elif t[0] == "op":
-            out.append("(XOp %s)" % {"and": "OAnd", "or": "OOr", "not": "ONot"}[t[1]])
-        else:
-            out.append("(XAtom %s)" % cstr(t[1]))
-    return "(Some %s)" % clist(out)
+def c_key(t):
+    """reference predicate (props/c01.py value_ref) -> Spec.Query.akey"""
+    k = t[0]
+    f = cstr(t[1])
+    if k in ("match", "cmatch"):
+        return "YMatch %s %s %s" % (cbool(k == "cmatch"), f, c_items(t[2]))
+    if k == "eq":
+        return "YTok %s %s" % (f, cstr(str(t[2])))
+    if k == "null":
+        return "YNull %s" % f
+    if k == "exists":
+        return "YExists %s" % f
+    if k == "re":
+        fl = set(t[3])
+        return "YRe %s %s %s %s %s" % (f, cstr(t[2]), cbool("i" in fl), cbool("m" in fl), cbool("s" in fl))
+    if k == "cidr":
+        return "YCidr %s %s" % (f, cstr(t[2]))
+    if k == "cmp":
+        return "YCmp %s %s %s" % (f, CMPOPS[t[2]], cstr(str(t[3])))
+    if k == "cmp_ts":
+        return "YCmpTs %s %s %s %s" % (f, CMPOPS[t[2]], cstr(t[3]), cstr(str(t[4])))
+    if k == "tspart":
+        return "YTs %s %s %s" % (f, cstr(t[2]), cstr(str(t[3])))
+    if k == "fieldref":
+        return "YFieldRef %s %s %s %s" % (f, cstr(t[2]), cbool(t[3]), cbool(t[4]))
+    return None
+
+
+def c_keys(ids):
+    out = [None] * len(ids)
+    for t, i in ids.items():
+        out[i] = c_key(t)
+    if any(x is None for x in out):
+        return None
+    return clist(out)
 
 
 def expand_cases(case, r):
@@ -525,17 +402,19 @@ def struct_to_coq(case, r):
     cnd, ref = items[case.get("ci", 0)] if case.get("ci", 0) < len(items) else items[0]
     ids = {}
     cref = c_ref(ref, ids)
-    toks = c_toks(cnd["query"], ids)
     if len(ids) > 9:
+        return None
+    keys = c_keys(ids)
+    if keys is None:
         return None
     k = case["k"]
     return ("{| sc_K := %s; sc_S := %s; sc_tree := %s; sc_atexts := %s; sc_ftexts := %s; sc_vtexts := %s; sc_query := %s; "
-            "sc_toks := %s; sc_ref := %s; sc_natoms := %d%%nat; sc_pylex := %s |}" % (
+            "sc_keys := %s; sc_ref := %s; sc_natoms := %d%%nat; sc_pylex := None |}" % (
                 c_cfg(k), c_syntax(k), c_tree(cnd["tree"]),
                 clist("(%d%%nat, (%s, %s))" % (i, cstr(a), cstr(b)) for i, a, b in cnd["atexts"]),
                 clist("(%d%%nat, %s)" % (i, cstr(a)) for i, a in cnd["ftexts"]),
                 clist("(%d%%nat, %s)" % (i, cstr(a)) for i, a in cnd["vtexts"]),
-                cstr(cnd["query"]), copt(toks), cref, len(ids), c_pylex(cnd["query"])))
+                cstr(cnd["query"]), keys, cref, len(ids)))
 
 
 def tree_unsafe_noteq(t, under_not=False):
@@ -698,7 +577,7 @@ def strop_to_coq(c, r):
                 dec = f"({op}, {items})"
     return f"({K}, {cstr(c['s'])}, {copt(dec)})"
 
-REQ = ["Base.Chars", "Model.Backend", "Spec.Target", "Spec.Lex", "Run.C01run"]
+REQ = ["Base.Chars", "Model.Backend", "Spec.Target", "Spec.Lex", "Spec.Items", "Model.Leaf", "Spec.Query", "Run.C01run"]
 from props.c01_leaf import gen_leaf, leaf_to_coq, stratum_leaf, mutate_leaf, known_leaf, py_oracle_leaf
 REQ_LEAF = ["Base.Chars", "Base.Outcome", "Model.SString", "Model.StrOp", "Model.FieldName", "Model.Leaf", "Spec.Atom", "Run.C01leaf"]
 PROPERTY = Property(
@@ -719,12 +598,14 @@ PROPERTY = Property(
          "with flags; CIDR; comparisons; timestamp parts; exists; field references; unbound values) x verification backend flag "
          "sets incl. pattern-controlled string quoting and overlapping field escape pattern, and the shipped test backend with "
          "attribute variations; both the normal and the negated-template rendering.",
-    assumptions=["suite struct takes the text of each leaf from the implementation and checks it by decoding each atom of the final "
-                 "query in the harness (props/c01.py decode_atom, trusted Python); the rendering of a leaf itself is modelled "
-                 "(Model/Leaf.v from the exported class attributes) and read back by Spec/Atom.v inside Coq in suite leaf "
-                 "(theorems C01_leaf_faithful, C01_leaf_unbound_faithful, C01_leaf_string_meaning); oracles of the leaf model: match "
-                 "positions of field_escape_pattern, the field_quote_pattern / str_quote_pattern decisions (computed with re in the "
-                 "harness), str() of numbers and networks, Python's \\w on non-ASCII characters",
+    assumptions=["suite struct takes the text of each leaf from the implementation (the leaf renderers themselves are modelled in "
+                 "suite leaf); the implementation's query is read inside Coq - Spec/Lex.v splits it (C01_lex_show, C01_conv_separates, "
+                 "C01_leaf_lexical), Spec/Atom.v reads every atom (C01_leaf_faithful), Spec/Query.v identifies an atom with a reference "
+                 "predicate by field, match kind and pattern up to '**' = '*', Spec/Target.v parses (C01_structure); trusted Python on "
+                 "the specification side: the reference-meaning builder (props/c01.py value_ref / det_ref / expr_ref: detection items "
+                 "after modifiers + the generating expression -> boolean combination of reference predicates) and the encoders",
+                 "oracles of the leaf model: match positions of field_escape_pattern, the field_quote_pattern / str_quote_pattern "
+                 "decisions (computed with re in the harness), str() of numbers and networks, Python's \\w on non-ASCII characters",
                  "leaf suite, not modelled: SigmaQueryExpression values, placeholders inside regular expressions, deferred "
                  "expressions, in-list rendering of values (the list syntax itself is in Model/Backend.v)",
                  "the reference meaning starts from the detection items after modifier application (modifiers themselves are C03/C04)",
